@@ -24,3 +24,30 @@ package planner
 //@   ensures forall(i, 0 <= i && i < len(old(n.ordering)), compareOf(docProp(docA, old(n.ordering)[i].FieldIndexes), docProp(docB, old(n.ordering)[i].FieldIndexes)) == 0) ==> !r
 //@   known C08-order-first-key-only ensures[2] excluding len(n.ordering) >= 2 && compareOf(docProp(docA, n.ordering[0].FieldIndexes), docProp(docB, n.ordering[0].FieldIndexes)) == 0
 //@   tags C08
+//@
+//@ // ===== C08: limit/offset on the members of a group cut a slice of the member sequence; no request makes
+//@ // the node panic (index obligations are generated for this function: opt nopanic)
+//@ // the loop that hides the members after offset+limit is entered only when there is a limit (0 = none)
+//@ func (*groupNode).Next -> (ok, err)
+//@   opt nopanic
+//@   loop 4 invariant childSelect.Targetable.Limit.Limit > 0
+//@   tags C08
+//@
+//@ // ===== C10: commit-history queries.  A commit that belongs to a document is turned into a result row
+//@ // only after the requester's read permission on that document was checked and granted, with the
+//@ // requester's identity and the collection of the commit's schema version
+//@ extern (crdt.CRDT).* -> (r)
+//@   pure
+//@ extern (immutable.Option[dac.DocumentACP]).* -> (r)
+//@   pure
+//@ func (*dagScanNode).Next -> (ok, err)
+//@   assert before call#1 dagBlockToNodeDoc: called(hasReadAccess, 1) && res(hasReadAccess, 1, 0) && res(hasReadAccess, 1, 1) == nil && callarg(hasReadAccess, 1, 1) == arg1 && arg1 == res(GetFromBytes, 1, 0)
+//@   tags C10
+//@ func (*dagScanNode).hasReadAccess -> (ok, err)
+//@   assert before call#1 CheckAccessOfDocOnCollectionWithACP: arg1 == n.planner.identity
+//@   assert before call#1 CheckAccessOfDocOnCollectionWithACP: arg2 == res(Option[DocumentACP].Value, 1, 0)
+//@   assert before call#1 CheckAccessOfDocOnCollectionWithACP: arg3 == res(GetCollections, 1, 0)[0]
+//@   assert before call#1 CheckAccessOfDocOnCollectionWithACP: arg4 == box(acpTypes.DocumentReadPerm)
+//@   assert before call#1 CheckAccessOfDocOnCollectionWithACP: callarg(GetDocID, 1, 0) == old(block.Delta)
+//@   ensures ok && err == nil ==> isnil(res(GetDocID, 1, 0)) || !res(Option[DocumentACP].HasValue, 1, 0) || (called(CheckAccessOfDocOnCollectionWithACP, 1) && res(CheckAccessOfDocOnCollectionWithACP, 1, 0) && res(CheckAccessOfDocOnCollectionWithACP, 1, 1) == nil)
+//@   tags C10
